@@ -5892,6 +5892,18 @@ func (lc *LightningChannel) ReceiveRevocation(revMsg *lnwire.RevokeAndAck) (
 	lc.Lock()
 	defer lc.Unlock()
 
+	// Verify that if we use the commitment point computed based off of the
+	// revealed secret to derive a revocation key with our revocation base
+	// point, then it matches the current revocation of the remote party.
+	// This is checked before the secret is handed to the preimage store,
+	// as the store cannot tell a foreign secret from a genuine one at
+	// every index and a refused message must leave the store untouched.
+	currentCommitPoint := lc.channelState.RemoteCurrentRevocation
+	derivedCommitPoint := input.ComputeCommitmentPoint(revMsg.Revocation[:])
+	if !derivedCommitPoint.IsEqual(currentCommitPoint) {
+		return nil, nil, fmt.Errorf("revocation key mismatch")
+	}
+
 	// Ensure that the new pre-image can be placed in preimage store.
 	store := lc.channelState.RevocationStore
 	revocation, err := chainhash.NewHash(revMsg.Revocation[:])
@@ -5900,15 +5912,6 @@ func (lc *LightningChannel) ReceiveRevocation(revMsg *lnwire.RevokeAndAck) (
 	}
 	if err := store.AddNextEntry(revocation); err != nil {
 		return nil, nil, err
-	}
-
-	// Verify that if we use the commitment point computed based off of the
-	// revealed secret to derive a revocation key with our revocation base
-	// point, then it matches the current revocation of the remote party.
-	currentCommitPoint := lc.channelState.RemoteCurrentRevocation
-	derivedCommitPoint := input.ComputeCommitmentPoint(revMsg.Revocation[:])
-	if !derivedCommitPoint.IsEqual(currentCommitPoint) {
-		return nil, nil, fmt.Errorf("revocation key mismatch")
 	}
 
 	// Now that we've verified that the prior commitment has been properly
